@@ -60,7 +60,9 @@ pub(crate) fn gsub_rule(parser: &mut Parser, recovery: TokenSet) {
             }
         // sub glyph from (type 3)
         } else if !target_is_class && parser.eat(Kind::FromKw) {
-            glyph::eat_named_or_unnamed_glyph_class(parser, recovery.union(RECOVERY));
+            // the class of alternates is required ('sub a from;' used to parse
+            // without error and panic in validation)
+            glyph::expect_named_or_unnamed_glyph_class(parser, recovery.union(RECOVERY));
             parser.expect_semi();
             return AstKind::GsubType3;
         } else if parser.matches(0, Kind::FromKw) {
